@@ -19,16 +19,46 @@ Lemma verilog_str_signed_rejected s passed : is_ok (infer (RStr s) passed true) 
 Proof. reflexivity. Qed.
 
 Lemma verilog_str_width_mismatch s neg num w p :
-  verilog_parse s = Ok (neg, w, num) -> p <> 0 -> p <> w ->
+  verilog_parse s = Ok (neg, w, num) -> p <> w ->
   is_ok (infer (RStr s) (Some p) false) = false.
 Proof.
-  intros Hp H0 Hw. cbn [infer]. unfold verilog_str. rewrite Hp. apply verilog_tail_width_mismatch; assumption.
+  intros Hp Hw. cbn [infer]. unfold verilog_str. rewrite Hp. apply verilog_tail_width_mismatch; assumption.
 Qed.
 
 Lemma verilog_str_zero_width s neg num w passed :
   verilog_parse s = Ok (neg, w, num) -> w < 1 -> is_ok (infer (RStr s) passed false) = false.
 Proof.
   intros Hp Hw. cbn [infer]. unfold verilog_str. rewrite Hp. apply verilog_tail_zero_width; assumption.
+Qed.
+
+Lemma not_ok_none {A} (r : res A) : is_ok r = false -> res_opt r = None.
+Proof. destruct r; [discriminate|reflexivity]. Qed.
+
+(* the whole agreement statement, for every bitwidth parameter and every written width, with the
+   single exclusion of the most negative value (F13) *)
+Lemma verilog_str_agrees_all s neg num w passed :
+  verilog_parse s = Ok (neg, w, num) -> 0 <= num ->
+  ~ (neg = true /\ 1 <= w /\ num = 2 ^ (w - 1)) ->
+  res_opt (infer (RStr s) passed false)
+  = match passed with
+    | Some p => if p =? w then res_opt (infer (RInt (if neg then - num else num)) (Some w) false) else None
+    | None => res_opt (infer (RInt (if neg then - num else num)) (Some w) false)
+    end.
+Proof.
+  intros Hp Hn Hg.
+  assert (Hcore : forall passed', passed_ok passed' w ->
+            res_opt (infer (RStr s) passed' false)
+            = res_opt (infer (RInt (if neg then - num else num)) (Some w) false)).
+  { intros passed' Hok. destruct (Z.lt_ge_cases w 1) as [Hw|Hw].
+    - rewrite (not_ok_none _ (verilog_str_zero_width s neg num w passed' Hp Hw)).
+      cbn [infer]. rewrite convert_int_some. unfold representableb.
+      replace (1 <=? w) with false by lia. reflexivity.
+    - apply verilog_str_agrees; try assumption. intros [H1 H2]. apply Hg. auto. }
+  destruct passed as [p|].
+  - destruct (p =? w) eqn:E.
+    + assert (p = w) by lia. subst p. apply Hcore. right. reflexivity.
+    + apply not_ok_none. apply (verilog_str_width_mismatch s neg num w p Hp). lia.
+  - apply Hcore. left. reflexivity.
 Qed.
 
 (* Const on ints and bools: the internal post-checks (codes 200+k of const_model) never fire *)
